@@ -135,6 +135,10 @@ func genCmdRaceCase(rnd *rand.Rand, id int) *Case {
 		case 0:
 			return Stmt{K: "cmd", Elems: []*Expr{eStr("h0")}}
 		case 1:
+			if rnd.Intn(3) == 0 {
+				// an expression over negated literals: converted to the float64 parameter at every dispatch alike
+				return Stmt{K: "cmd", Elems: []*Expr{eStr("h1"), eBin("add", eNeg(eNum(1+rnd.Intn(3), 1)), eNeg(eNum(1, 2)))}}
+			}
 			return Stmt{K: "cmd", Elems: []*Expr{eStr("h1"), eNum(rnd.Intn(9)-4, 1)}}
 		case 2:
 			return Stmt{K: "cmd", Elems: []*Expr{eStr("h2"), eStr([]string{"north", "word"}[rnd.Intn(2)]), eBool(rnd.Intn(2) == 0)}}
